@@ -84,7 +84,7 @@ def run(ctx):
     r = worldrun.run_stream("C10", "held_lock", mcases, model_ok, level=1, oracle=oracle, do_shrink=False,
                             triggers=(lambda case, a, b: sorted(b["F"]) if b else []),
                             nontrivial=lambda c, a: (a.get("P") or {}).get("held") == "true",
-                            desc="operation A is held at its k-th primitive call (k from 0..25, any position inside its backup/base calls) while operation B is issued from another goroutine on the same BackupFS; oracle: a locked B issues no primitive call and does not return while A is held, the mutex is free afterwards, results and final trees equal the model's serial run A;B, the final Rollback restores the base; non-trivial = A was actually held")
+                            desc="operation A is held at its k-th primitive call (one k per case, drawn from 0,1,2,3,5,8,12,17,25,33,41: positions inside its backup and base calls) while operation B is issued from another goroutine on the same BackupFS; oracle: a locked B issues no primitive call and does not return while A is held, the mutex is free afterwards, results and final trees equal the model's serial run A;B, the final Rollback restores the base; non-trivial = A was actually held")
     rc = [c for c in cases if c.ops[c.meta["pause"][2]][0] not in LOCKED]
     for c in rc:
         c.meta["twin"] = True   # results of an unlocked reader depend on the interleaving: not compared with the model
@@ -93,8 +93,8 @@ def run(ctx):
                              nontrivial=lambda c, a: (a.get("P") or {}).get("paused") == "true",
                              desc="the same with an unlocked read-only B (Stat/Lstat/Readlink/Open): it may run while A is held; the final Rollback must still restore the base")
     # race detector
-    races = {"name": "race_detector", "n": 0, "mismatch": [], "oracle": [], "nontrivial": 0, "exhaustive": False,
-             "desc": "8 goroutines x N random operations (mutators, readers, Map, MarshalJSON, ForceBackup, Rollback) on one BackupFS, built with -race; oracle: no race report, final Rollback succeeds"}
+    races = {"name": "race_detector", "n": 0, "mismatch": [], "oracle": [], "nontrivial": 0, "exhaustive": False, "model_compared": False,
+             "desc": "8 goroutines x N random operations (mutators, readers, Map, MarshalJSON, ForceBackup, Rollback) on one BackupFS, built with -race; oracle: no race report and no crash (whether the final Rollback succeeds under stress is judged by C01's triggers, not here)"}
     hd = os.path.join(VERIF, "harness")
     env = dict(GOENV, CGO_ENABLED="1")
     rcode, out = sh("go build -race -tags verif -o %s/vrace ./cmd/vrace" % BUILD, cwd=hd, env=env, timeout=900)
